@@ -30,14 +30,18 @@ KNOWN_SIG = "yosys:drivers:struct_signal_forms_inconsistent"
 def struct_signal_names(design):
   """names (as they appear in emitted identifiers) of every struct-typed port/wire and child struct port"""
   out = set()
+
+  def add(prefix, n):
+    out.add(prefix + n.replace("[", "__").replace("]", ""))      # element of a list: base__i
+    out.add(prefix + n.split("[", 1)[0])                           # the list as a whole: base, base__field{element i}
   for cn, c in design["classes"].items():
     for n, d, t in c["ports"]:
-      if t[0] == "s": out.add(n)
+      if t[0] == "s": add("", n)
     for n, t in c["wires"]:
-      if t[0] == "s": out.add(n)
+      if t[0] == "s": add("", n)
     for iname, ccn in c["children"]:
       for n, d, t in design["classes"][ccn]["ports"]:
-        if t[0] == "s": out.add(f"{iname}__{n}")
+        if t[0] == "s": add(f"{iname}__", n)
   return out
 
 
